@@ -82,6 +82,14 @@ SPEC = {
              "(binding by binding with the read entry before / after the write entry; all write entries first; all read "
              "entries first): same oracles; in every 3rd case with a read+write binding one buffet and one cache run is "
              "repeated with read and write entries the other way round and must report the same.  "
+             "History: in 25% of the random cases of (ii)/(iii) the call under test is not the first thing that happened "
+             "at its paths: before the first buffet call of every eviction setting and before two of the cache calls an "
+             "earlier run of the kernel (a subset of the iterations, other positions) is written to the very paths of the "
+             "case, a model call on it with the same formats and trace dictionary is refused (AssertionError: the type of "
+             "one binding does not fit the layout of its rank) after its temporaries were written, nothing is cleaned up, "
+             "and the trace files are rewritten with the rows of the case.  The following call is judged by the same "
+             "oracles applied to the rewritten traces alone (keys carry :first-call-after-a-refused-call-on-an-earlier-"
+             "trace), and the directory must hold only the trace files afterwards.  "
              "Non-trivial = some line is touched at least twice (model cases) / the filter keeps "
              "and drops at least one row / both merged files hold rows; distinct = distinct case description."),
     "shards": {"quick": 16, "thorough": 16},
@@ -101,7 +109,9 @@ SPEC = {
                              "shared_trace_cases": 250, "same_rank_fnu_checked": 1500,
                              "same_rank_optimum_checked": 250,
                              "cases_with_reused_lines_alike_as_text": 120,
-                             "calls_on_reused_lines_alike_as_text": 2000},
+                             "calls_on_reused_lines_alike_as_text": 2000,
+                             "refused_calls_on_earlier_traces": 600,
+                             "calls_after_a_refused_call_that_left_files": 600},
                    "thorough": {"evaluations": 100000, "oracle_evals": 4000000, "model_calls": 400000,
                                 "fnu_checked": 200000, "optimum_checked": 50000, "kernel_cases": 2000,
                                 "filter_calls": 8000, "combine_calls": 4000, "relisted_runs": 10000,
@@ -115,7 +125,9 @@ SPEC = {
                                 "shared_trace_cases": 2500, "same_rank_fnu_checked": 15000,
                                 "same_rank_optimum_checked": 2000,
                                 "cases_with_reused_lines_alike_as_text": 1500,
-                                "calls_on_reused_lines_alike_as_text": 25000}},
+                                "calls_on_reused_lines_alike_as_text": 25000,
+                                "refused_calls_on_earlier_traces": 6000,
+                                "calls_after_a_refused_call_that_left_files": 6000}},
     "assumptions": [
         "well-formed trace file = header + rows whose iteration stamps strictly increase inside the file; a read "
         "row and a write row (different files) may share a stamp, the read is first",
@@ -155,6 +167,12 @@ SPEC = {
         "a capacity is a number of bits: an int, a float with an integral value, float('inf') / math.inf for "
         "`unbounded`; what it holds is floor(capacity / line size) whole lines.  The spelling of the number is not an "
         "input of the statement",
+        "`given traces` = the trace files as they are when the call starts: what a call charges does not depend on "
+        "what was at those paths before, nor on earlier calls.  A call that is refused (a binding whose type does not "
+        "fit the layout of its rank is not a well-formed binding) is outside the quantifier: neither what it raises nor "
+        "what it leaves in the directory is judged; files it leaves behind carry the names of the temporaries of the "
+        "next call with the same trace dictionary, so after that call (which is inside the quantifier) `all temporary "
+        "files are removed` means the directory holds the trace files only",
         "the trace dictionary may describe more than the call binds (each buffer level is handed the dictionary of "
         "the whole kernel): entries whose (tensor, rank, type) no binding names come from the same loop nest, their "
         "tensors have a format with a non-zero element width; they must not be charged (a zero entry or no entry "
